@@ -23,4 +23,9 @@ BUILT = {
   level='exploration',
   text='Random nestings of every statement form (switch over 10 controlling types with negative/wide/range cases, Duff shapes, goto, computed goto, do-continue, short-circuit, statement expressions) and shadowing programs over object/typedef/enumerator/tag/label name spaces; the trace printed by the chibicc build must equal the references.',
   note='trusts gcc/clang for the GNU extensions used; depth bounded (3 quick, 4 thorough)'),
+ 'C08': dict(
+  technique='property-based differential testing (Hypothesis-generated struct/union definitions and declarator nests; sizeof/_Alignof/offsetof/bit-field images vs gcc+clang consensus) + exhaustive enumeration of all type-specifier permutations',
+  level='exploration',
+  text='All 1778 spellings of the 30 specifier multisets (with qualifiers/storage classes at every position) are enumerated exhaustively; random declarator nests and random struct/union definitions with bit-fields, zero-width/unnamed fields, packed/aligned/_Alignas, anonymous members and nesting are compared member by member against the two psABI reference compilers.',
+  note='trusts gcc/clang psABI layout; packed aggregates containing bit-fields or _Alignas members are excluded by construction while D12b/D12c are recorded findings (counted in evidence)'),
 }
